@@ -82,38 +82,18 @@ Fixpoint first_mismatch (Hf : Z -> Z -> Z) (fsize : Z -> Z) (cap : Z) (persist :
     if xobs_eqb o mo ob then first_mismatch Hf fsize cap persist st' (i + 1) rest else Some i
   end.
 
-(* ghost flag of the model after step i of the trace *)
-Fixpoint stale_after (Hf : Z -> Z -> Z) (fsize : Z -> Z) (cap : Z) (persist : bool)
-    (st : xstate) (k i : Z) (tr : list (xop * obs)) : bool :=
-  match tr with
-  | [] => stale st
-  | (o, _) :: rest =>
-    let st' := fst (xstep Hf fsize cap persist st o) in
-    if k =? i then stale st' else stale_after Hf fsize cap persist st' (k + 1) i rest
-  end.
-
 (* rows (case id, kind, step, tag): kind 1 = model and implementation differ
-   at step; kind 2 = a monitor rejects the implementation trace at step:
-   tag 0 = the core monitor (or the strict one while the model's ghost flag is
-   clear); tag 1 = only the strict monitor rejects and the model state is
-   flagged stale (root cause 1: entries not invalidated by a header rewrite) *)
+   at step; kind 2 = the monitor rejects the implementation trace at step
+   (tag 0: there is no open finding; F-C05-2 is repaired and its history is an
+   ordinary case) *)
 Definition verdict_of (c : Z * case) : list (Z * Z * Z * Z) :=
   let '(id, (best, cap, persist, fhs, hft, szt, d0, tr)) := c in
   let Hf := t_Hf hft in let fh := t_fh fhs in
-  let st0 := {| base := {| cache := []; db := d0; dbq := [] |}; hdrs := fh; xbest := best; stale := false; envbad := false |} in
+  let st0 := {| base := {| cache := []; db := d0; dbq := [] |}; hdrs := fh; xbest := best |} in
   (match first_mismatch Hf (t_size szt) cap persist st0 0 tr with
    | Some i => [(id, 1, i, 0)] | None => [] end) ++
   (if all_verified Hf fh d0
-   then
-     let core := xfirst_bad Hf false fh best 0 [] d0 [] tr in
-     let strict := xfirst_bad Hf true fh best 0 [] d0 [] tr in
-     (match core with Some i => [(id, 2, i, 0)] | None => [] end) ++
-     (match strict with
-      | Some i =>
-        if (match core with Some j => j =? i | None => false end) then []
-        else [(id, 2, i, if stale_after Hf (t_size szt) cap persist st0 0 i tr then 1 else 0)]
-      | None => []
-      end)
+   then match xfirst_bad Hf fh best 0 [] d0 [] tr with Some i => [(id, 2, i, 0)] | None => [] end
    else [(id, 2, -1, 0)]).
 
 Definition run_cases (cs : list (Z * case)) : list (Z * Z * Z * Z) := flat_map verdict_of cs.
